@@ -199,9 +199,14 @@ def directed(run, prop, tier, seed):
         elif prop == "C09":
             fam += [
                 (f"*=0x008000\n.macro m(a, b) {{\n.db a, b\n}}\na := {a}\nm(1, a)\n", bytes([1, a])),
-                # arguments that cannot be evaluated at the call site yet (they name labels or `=` symbols) and that
-                # are spelled like parameters of the applied macro (known finding C09-deferred-capture when it fails)
+                # arguments that cannot be evaluated when the macro is applied (they name labels or `=` symbols) and that
+                # are spelled like parameters of the applied macro: evaluated at the call site all the same (fix 61f6156)
                 ("*=0x008000\n.macro m(a, b) {\n.dw a, b\n}\n{\na:\nnop\nb:\nm(b, a)\n}\n", bytes([0xEA, 0x01, 0x80, 0x00, 0x80])),
+                (f"*=0x008000\na = {a}\nb = {b}\n.macro m(a, b) {{\n.db a, b\n}}\nm(b, a)\n", bytes([b, a])),
+                ("*=0x008000\n.macro m(a, b) {\n.dw a, b\n}\nm(b, a)\na:\nnop\nb:\n", bytes([0x05, 0x80, 0x04, 0x80, 0xEA])),
+                (f"*=0x008000\n.macro inner(x) {{\n.dw x\n}}\n.macro outer(x, y) {{\ninner(y)\ninner(x + {c})\n}}\nouter(y, x)\nx:\nnop\ny:\n",
+                 bytes([0x04, 0x80]) + (0x8005 + c).to_bytes(2, "little") + b"\xea"),
+                (f"*=0x008000\n.macro m(a, b, c) {{\n.db a\n.dw b, c\n}}\nm({a}, c, b)\nb:\nnop\nc:\n", bytes([a, 0x06, 0x80, 0x05, 0x80, 0xEA])),
                 (f"*=0x008000\nx := {a}\n.macro pair(x, y) {{\n.db x, y\n}}\npair(1, x + 1)\n", bytes([1, a + 1])),
                 (f"*=0x008000\n.macro two(lo, hi) {{\n.db lo, hi\n}}\n.macro swapped(hi, lo) {{\ntwo(hi, lo)\n}}\nswapped({a}, {b})\n", bytes([a, b])),
                 (f"*=0x008000\n.macro e(t) {{\n.dw t\n}}\ne(first)\ne(second)\nfirst:\n.db {a}\nsecond:\n", b"\x04\x80\x05\x80" + bytes([a])),
